@@ -938,7 +938,8 @@ fn main() {
     // the process' current directory is a scratch directory of its own: whatever a (broken) library does relative to
     // AT_FDCWD lands there and not in the checker's tree
     {
-        let cwd = args.work.join(format!("cwd_{}", std::process::id()));
+        // (one directory for all driver processes: its name shows up in /proc/self/cwd, which some jobs read)
+        let cwd = args.work.join("cwd");
         let _ = std::fs::create_dir_all(&cwd);
         let _ = std::fs::set_permissions(&cwd, std::fs::Permissions::from_mode(0o777));
         // (the job and result paths are given as absolute paths by the checker; relative ones are resolved first)
